@@ -1378,3 +1378,978 @@ Section BuildOps.
     intros H. apply build_closed_ext. intros k Hk. destruct (Nat.eqb_spec k k0); [congruence | reflexivity].
   Qed.
 End BuildOps.
+
+(** ** The simulation relation *)
+Definition closedf (r : reg) (k : nat) : bool := negb (reg_present r k).
+
+Lemma spec_current_first_outer s : spec_current s = first_outer s.
+Proof. induction s as [|k t IH]; cbn; [reflexivity|]. rewrite IH. reflexivity. Qed.
+
+Lemma ext_find_single key c : ext_find key [(key, c)] = Some c.
+Proof. cbn. rewrite N.eqb_refl. reflexivity. Qed.
+
+Lemma reg_inv_ext sym r x id e : reg_inv_ex sym r x -> reg_inv_ex sym (reg_set_ext r id e) x.
+Proof.
+  intros I. unfold reg_set_ext. destruct (reg_get r id) as [s|] eqn:Es; [|exact I].
+  change (reg_set r id (with_ext s e)) with (mk_reg (rg_spans (reg_set r id (with_ext s e))) (rg_stacks r)).
+  apply (inv_update sym sym r x x id s (with_ext s e) (rg_stacks r) I Es).
+  - reflexivity.
+  - reflexivity.
+  - intros j Hne. repeat split.
+  - exact (ri_refs _ _ _ I id s Es).
+  - exact (ri_stack _ _ _ I).
+  - exact (ri_single _ _ _ I).
+Qed.
+
+Lemma skipn_tail {A} (l : list A) : forall k x tl, skipn k l = x :: tl -> skipn (S k) l = tl.
+Proof.
+  induction l as [|a l IH]; intros [|k] x tl H; cbn in *; try discriminate.
+  - injection H as _ ->. reflexivity.
+  - apply (IH k x tl H).
+Qed.
+
+Lemma nth_error_skipn' {A} (l : list A) : forall k j, nth_error (skipn k l) j = nth_error l (k + j).
+Proof.
+  induction l as [|a l IH]; intros [|k] j; cbn; try reflexivity.
+  - destruct j; reflexivity.
+  - apply IH.
+Qed.
+
+Section Refine.
+  Variable f : cs_data -> bool.
+  Variable key : N.
+
+  (** what the Registry's span data says about the forest *)
+  Definition span_ok (a : astate) (k : nat) (s : rspan) : Prop :=
+    exists x, nth_error (a_spans a) k = Some x /\ rs_meta s = as_meta x /\ rs_raw s = as_raw x /\
+              rs_parent s = as_lparent x /\
+              rs_ext s = (if f (as_meta x) then [(key, cap_rank f (a_spans a) k)] else []).
+
+  Record sim (sym : sym_state) (a : astate) (r : reg) (st : cstorage) : Prop := mk_sim {
+    sm_sym : a_sym a = sym;
+    sm_inv : reg_inv sym r;
+    sm_len : List.length (a_spans a) = n_spans sym;
+    sm_span : forall k s, reg_get r k = Some s -> span_ok a k s;
+    sm_plt : plt (a_spans a);
+    sm_evb : evs_bounded (a_spans a) (a_events a);
+    sm_fol : fol_bounded (a_spans a);
+    sm_st : st = build f (closedf r) a }.
+
+  Lemma span_ok_captured a k s :
+    span_ok a k s ->
+    captured_id key s = (if f (rs_meta s) then Some (cap_rank f (a_spans a) k) else None).
+  Proof.
+    intros (x & _ & Hm & _ & _ & He). unfold captured_id. rewrite He, Hm.
+    destruct (f (as_meta x)); [apply ext_find_single | reflexivity].
+  Qed.
+
+  Lemma closedf_shape r r1 a : same_shape r r1 -> build f (closedf r1) a = build f (closedf r) a.
+  Proof. intros H. apply build_closed_ext. intros k _. unfold closedf. rewrite (same_shape_present _ _ k H). reflexivity. Qed.
+
+  (** *** scopes find the nearest captured ancestor *)
+  Lemma scope_find_nearest (R : reg) (spans : list aspan) (bound : nat) :
+    (forall c s, reg_get R c = Some s -> (c < bound)%nat ->
+       exists x, nth_error spans c = Some x /\ rs_meta s = as_meta x /\ rs_parent s = as_lparent x /\
+                 captured_id key s = if f (as_meta x) then Some (cap_rank f spans c) else None) ->
+    (forall c s p, reg_get R c = Some s -> rs_parent s = Some p -> (p < c)%nat /\ reg_present R p = true) ->
+    forall fuel fuel' c, (c < bound)%nat -> (c < fuel)%nat -> (c < fuel')%nat -> reg_present R c = true ->
+      scope_find R key (scope_from fuel R c) = option_map (cap_rank f spans) (nearest_cap f spans fuel' (Some c)).
+  Proof.
+    intros H1 H2. induction fuel as [|n IH]; intros fuel' c Hb Hc Hc' Hp; [lia|].
+    destruct fuel' as [|n']; [lia|]. cbn [scope_from nearest_cap].
+    apply reg_present_get in Hp as [s Hs]. rewrite Hs. cbn [scope_find]. rewrite Hs.
+    destruct (H1 c s Hs Hb) as (x & Hx & Hm & Hpar & Hcap). rewrite Hx, Hcap.
+    destruct (f (as_meta x)); [reflexivity|].
+    rewrite <- Hpar. destruct (rs_parent s) as [p|] eqn:Ep.
+    - destruct (H2 c s p Hs Ep) as [Hlt Hpp]. apply IH; try lia. exact Hpp.
+    - cbn. destruct n'; reflexivity.
+  Qed.
+
+  (** *** open spans of the specification = spans the Registry holds *)
+  Definition is_some {A} (o : option A) : bool := match o with Some _ => true | None => false end.
+
+  Lemma nchild_pos r k : 0 < nchild r k <-> exists c s, reg_get r c = Some s /\ rs_parent s = Some k.
+  Proof.
+    unfold nchild. split.
+    - intros H. destruct (List.filter (is_child k) (rg_spans r)) as [|o l] eqn:E; [cbn in H; lia|].
+      assert (Hin : In o (List.filter (is_child k) (rg_spans r))) by (rewrite E; left; reflexivity).
+      apply filter_In in Hin as [Hin Hc]. destruct o as [s|]; [|discriminate]. cbn in Hc.
+      destruct (rs_parent s) as [p|] eqn:Ep; [|discriminate]. apply Nat.eqb_eq in Hc. subst p.
+      apply In_nth_error in Hin as [c Hc]. exists c, s. split; [|exact Ep]. unfold reg_get. rewrite Hc. reflexivity.
+    - intros (c & s & Hs & Hp).
+      assert (Hin : In (Some s) (List.filter (is_child k) (rg_spans r))).
+      { apply filter_In. split.
+        - unfold reg_get in Hs. destruct (nth_error (rg_spans r) c) as [[s'|]|] eqn:E; try discriminate.
+          injection Hs as ->. eapply nth_error_In; eauto.
+        - cbn. rewrite Hp. apply Nat.eqb_refl. }
+      destruct (List.filter (is_child k) (rg_spans r)); [destruct Hin | cbn; lia].
+  Qed.
+
+  Lemma has_open_child_iff k tl fl :
+    List.length fl = List.length tl ->
+    (has_open_child k tl fl = true <->
+     exists j x, nth_error tl j = Some x /\ nth j fl false = true /\ as_lparent x = Some k).
+  Proof.
+    revert fl. induction tl as [|x tl IH]; intros [|b fl] Hl; cbn in Hl; try discriminate.
+    - cbn. split; [discriminate|]. intros (j & y & H & _). destruct j; discriminate.
+    - cbn [has_open_child]. rewrite orb_true_iff, andb_true_iff, (IH fl) by lia. split.
+      + intros [[Hb He] | (j & y & A & B & C)].
+        * exists O, x. cbn. split; [reflexivity|]. split; [exact Hb|].
+          unfold opt_nat_eqb in He. apply (option_eqb_spec Nat.eqb Nat.eqb_eq) in He. exact He.
+        * exists (S j), y. cbn. auto.
+      + intros ([|j] & y & A & B & C); cbn in A, B.
+        * injection A as ->. left. split; [exact B|]. rewrite C. cbn. apply Nat.eqb_refl.
+        * right. exists j, y. auto.
+  Qed.
+
+  Lemma sim_open_flags sym a r st : sim sym a r st -> open_flags a = map is_some (rg_spans r).
+  Proof.
+    intros HS. unfold open_flags. rewrite (sm_sym _ _ _ _ HS).
+    pose proof (sm_inv _ _ _ _ HS) as I. pose proof (ri_len _ _ _ I) as Hlen. unfold reg_next in Hlen.
+    pose proof (sm_len _ _ _ _ HS) as Hal.
+    (* generalise over the suffix starting at [k] *)
+    assert (G : forall al k, skipn k (a_spans a) = al ->
+                open_from sym k al = map is_some (skipn k (rg_spans r))).
+    { intros al. induction al as [|x tl IH]; intros k Hk.
+      - cbn. assert (List.length (a_spans a) <= k)%nat.
+        { apply (f_equal (@List.length _)) in Hk. rewrite skipn_length in Hk. cbn in Hk. lia. }
+        rewrite skipn_all2 by lia. reflexivity.
+      - assert (Hklt : (k < List.length (a_spans a))%nat).
+        { apply (f_equal (@List.length _)) in Hk. rewrite skipn_length in Hk. cbn in Hk. lia. }
+        assert (Htl : skipn (S k) (a_spans a) = tl).
+        { eapply skipn_tail; eauto. }
+        specialize (IH (S k) Htl). cbn [open_from]. rewrite IH.
+        destruct (nth_error (rg_spans r) k) as [o|] eqn:Eo.
+        2:{ apply nth_error_None in Eo. lia. }
+        assert (Hsk : skipn k (rg_spans r) = o :: skipn (S k) (rg_spans r)).
+        { clear -Eo. revert k Eo. induction (rg_spans r) as [|y l IHl]; intros [|k] E; cbn in *; try discriminate.
+          - injection E as ->. reflexivity.
+          - apply IHl. exact E. }
+        rewrite Hsk. cbn [map]. f_equal.
+        (* the flag of span k *)
+        assert (Hchild : has_open_child k tl (map is_some (skipn (S k) (rg_spans r))) = true <-> 0 < nchild r k).
+        { rewrite (has_open_child_iff k tl _).
+          2:{ rewrite map_length, skipn_length. apply (f_equal (@List.length _)) in Htl.
+              rewrite skipn_length in Htl. lia. }
+          rewrite nchild_pos. split.
+          - intros (j & y & A & B & C).
+            assert (Ey : nth_error (a_spans a) (S k + j) = Some y).
+            { rewrite <- Htl in A. rewrite nth_error_skipn' in A. exact A. }
+            assert (Eb : is_some (nth (S k + j) (rg_spans r) None) = true).
+            { rewrite <- B. rewrite <- (map_nth is_some). cbn [is_some].
+              rewrite <- (firstn_skipn (S k) (map is_some (rg_spans r))) at 1.
+              rewrite app_nth2; rewrite firstn_length, map_length; [|lia].
+              replace (S k + j - Nat.min (S k) (List.length (rg_spans r)))%nat with j by lia.
+              rewrite <- skipn_map. reflexivity. }
+            destruct (nth (S k + j) (rg_spans r) None) as [s|] eqn:En; [|discriminate].
+            assert (Hs : reg_get r (S k + j) = Some s).
+            { unfold reg_get. destruct (nth_error (rg_spans r) (S k + j)) as [o'|] eqn:E'.
+              - apply nth_error_nth with (d := None) in E'. rewrite En in E'. subst o'. reflexivity.
+              - apply nth_error_None in E'. rewrite nth_overflow in En by lia. discriminate. }
+            exists (S k + j)%nat, s. split; [exact Hs|].
+            destruct (sm_span _ _ _ _ HS _ _ Hs) as (x' & Hx' & _ & _ & Hp & _). rewrite Ey in Hx'.
+            injection Hx' as <-. congruence.
+          - intros (c & s & Hs & Hp). pose proof (ri_parent _ _ _ I c s k Hs Hp) as Hlt.
+            destruct (sm_span _ _ _ _ HS _ _ Hs) as (x' & Hx' & _ & _ & Hp' & _).
+            exists (c - S k)%nat, x'. split; [|split].
+            + rewrite <- Htl, nth_error_skipn'. replace (S k + (c - S k))%nat with c by lia. exact Hx'.
+            + apply nth_error_nth. rewrite nth_error_map, nth_error_skipn'.
+              replace (S k + (c - S k))%nat with c by lia.
+              unfold reg_get in Hs. destruct (nth_error (rg_spans r) c) as [[s'|]|]; try discriminate.
+              reflexivity.
+            + congruence. }
+        assert (Hsingle := ri_single _ _ _ I). rewrite (on_any_stack_single sym k Hsingle).
+        destruct o as [s|]; cbn [is_some].
+        + assert (Hs : reg_get r k = Some s) by (unfold reg_get; rewrite Eo; reflexivity).
+          destruct (ri_refs _ _ _ I k s Hs) as [Hr Hpos]. cbn [excess] in Hr.
+          destruct (live sym k) eqn:El; [reflexivity|]. cbn [orb].
+          destruct (on_stack (stk sym) k) eqn:Es; [reflexivity|]. cbn [orb].
+          apply Hchild. unfold sref in Hr. rewrite Es in Hr. unfold live in El. apply N.ltb_ge in El. lia.
+        + assert (Hs : reg_get r k = None) by (unfold reg_get; rewrite Eo; reflexivity).
+          destruct (ri_absent _ _ _ I k Hs) as (A & B & C).
+          unfold live. rewrite A, B. cbn [N.ltb orb].
+          destruct (has_open_child k tl (map is_some (skipn (S k) (rg_spans r)))) eqn:Eh; [|reflexivity].
+          pose proof (proj1 Hchild eq_refl). lia. }
+    specialize (G (a_spans a) O eq_refl). exact G.
+  Qed.
+
+  Lemma sim_open sym a r st k : sim sym a r st -> a_open a k = reg_present r k.
+  Proof.
+    intros HS. unfold a_open. rewrite (sim_open_flags _ _ _ _ HS).
+    change false with (is_some (@None rspan)). rewrite map_nth.
+    unfold reg_present, reg_get. destruct (nth_error (rg_spans r) k) as [o|] eqn:E.
+    - apply nth_error_nth with (d := None) in E. rewrite E. destruct o; reflexivity.
+    - apply nth_error_None in E. rewrite nth_overflow by lia. reflexivity.
+  Qed.
+End Refine.
+
+(** ** One front-end call *)
+Section Steps.
+  Variable f : cs_data -> bool.
+  Variable key : N.
+
+  Notation sim := (sim f key).
+  Notation span_ok := (span_ok f key).
+
+  (** the forest changes in values / counters / follows-from edges only, the Registry in reference counts
+      and stacks only *)
+  Lemma sim_change sym sym' a a' r r1 st' :
+    sim sym a r (build f (closedf r) a) ->
+    same_shape r r1 -> reg_inv sym' r1 -> n_spans sym' = n_spans sym ->
+    a_sym a' = sym' -> a_events a' = a_events a ->
+    skel (a_spans a') = skel (a_spans a) ->
+    (forall k, option_map as_raw (nth_error (a_spans a') k) = option_map as_raw (nth_error (a_spans a) k)) ->
+    fol_bounded (a_spans a') ->
+    st' = build f (closedf r1) a' ->
+    sim sym' a' r1 st'.
+  Proof.
+    intros HS Hsh I1 Hn Hsym Hev Hsk Hraw Hfol Hst.
+    constructor; auto.
+    - rewrite (skel_length _ _ Hsk), Hn. apply (sm_len _ _ _ _ _ _ HS).
+    - intros k s1 Hs1. destruct Hsh as [_ Hsh]. specialize (Hsh k). rewrite Hs1 in Hsh.
+      destruct (reg_get r k) as [s|] eqn:Es; [|discriminate]. cbn in Hsh. injection Hsh as Hm Hr Hp He.
+      destruct (sm_span _ _ _ _ _ _ HS k s Es) as (x & Hx & A & B & C & D).
+      pose proof (skel_nth _ _ k Hsk) as Hk. specialize (Hraw k). rewrite Hx in Hk, Hraw.
+      destruct (nth_error (a_spans a') k) as [x'|] eqn:Ex'; [|contradiction]. destruct Hk as [Hm' Hl'].
+      cbn in Hraw. injection Hraw as Hraw.
+      exists x'. split; [exact Ex'|]. rewrite Hm, Hr, Hp, He, Hm', Hl', Hraw, (cap_rank_skel f _ _ k Hsk).
+      auto.
+    - intros k x p Hx Hp. pose proof (skel_nth _ _ k Hsk) as Hk. rewrite Hx in Hk.
+      destruct (nth_error (a_spans a) k) as [y|] eqn:Ey; [|contradiction]. destruct Hk as [_ Hl'].
+      eapply (sm_plt _ _ _ _ _ _ HS); eauto. congruence.
+    - rewrite Hev. intros i e p Hi Hp. rewrite (skel_length _ _ Hsk). eapply (sm_evb _ _ _ _ _ _ HS); eauto.
+  Qed.
+
+  Lemma upd_span_raw l k g j :
+    (forall s, as_raw (g s) = as_raw s) ->
+    option_map as_raw (nth_error (upd_span l k g) j) = option_map as_raw (nth_error l j).
+  Proof.
+    intros Hg. rewrite upd_span_nth. destruct (Nat.eqb j k); [|reflexivity].
+    destruct (nth_error l j); cbn; [rewrite Hg|]; reflexivity.
+  Qed.
+
+  Lemma upd_span_fol l k g :
+    fol_bounded l -> (forall s, as_follows (g s) = as_follows s) -> fol_bounded (upd_span l k g).
+  Proof.
+    intros Hl Hg j s c Hj Hc. rewrite upd_span_length. rewrite upd_span_nth in Hj.
+    destruct (Nat.eqb j k).
+    - destruct (nth_error l j) as [s0|] eqn:E; [|discriminate]. cbn in Hj. injection Hj as <-.
+      rewrite Hg in Hc. eapply Hl; eauto.
+    - eapply Hl; eauto.
+  Qed.
+
+  (** a callback that updates the payload of one span, on a Registry [r1] of the same shape *)
+  Lemma payload_callback sym sym' a r r1 st k s g G
+        (step : reg -> nat -> cstorage -> result (reg * cstorage)) :
+    sim sym a r st -> same_shape r r1 -> reg_inv sym' r1 -> n_spans sym' = n_spans sym ->
+    reg_get r k = Some s ->
+    keeps_skel g -> (forall s, as_raw (g s) = as_raw s) -> (forall s, as_follows (g s) = as_follows s) ->
+    (forall x c, rs_meta s = as_meta x ->
+       mk_spl (as_meta (g x)) (as_values (g x)) (as_entered (g x)) (as_exited (g x)) c
+       = G (mk_spl (as_meta x) (as_values x) (as_entered x) (as_exited x) c)) ->
+    (forall s1 st0, reg_get r1 k = Some s1 ->
+       step r1 k st0 = match captured_id key s1 with
+                       | Some c => let* st1 := of_outcome (on_span_update st0 c G) in ROk (r1, st1)
+                       | None => ROk (r1, st0)
+                       end) ->
+    exists st', step r1 k st = ROk (r1, st') /\
+      sim sym' (mk_astate sym' (upd_span (a_spans a) k g) (a_events a)) r1 st'.
+  Proof.
+    intros HS Hsh I1 Hn Hs Hg Hraw Hfol HG Hstep.
+    destruct (same_shape_get _ _ _ _ Hsh Hs) as (s1 & Hs1 & Hshape).
+    unfold shape in Hshape. injection Hshape as Hm _ _ He.
+    pose proof (sm_span _ _ _ _ _ _ HS k s Hs) as Hok.
+    assert (Hok1 : span_ok a k s1).
+    { destruct Hok as (x & Hx & A & B & C & D). exists x. rewrite Hm, He. repeat split; auto.
+      - destruct (same_shape_get _ _ _ _ Hsh Hs) as (s2 & Hs2 & Hshape2). rewrite Hs1 in Hs2. injection Hs2 as <-.
+        unfold shape in Hshape2. congruence.
+      - destruct (same_shape_get _ _ _ _ Hsh Hs) as (s2 & Hs2 & Hshape2). rewrite Hs1 in Hs2. injection Hs2 as <-.
+        unfold shape in Hshape2. congruence. }
+    rewrite (Hstep s1 st Hs1), (span_ok_captured f key a k s1 Hok1).
+    destruct Hok as (x & Hx & A & _).
+    pose proof (sm_st _ _ _ _ _ _ HS) as Hst. rewrite <- (closedf_shape f r r1 a Hsh) in Hst.
+    set (a' := mk_astate sym' (upd_span (a_spans a) k g) (a_events a)).
+    assert (HS0 : sim sym a r (build f (closedf r) a)) by (rewrite <- (sm_st _ _ _ _ _ _ HS); exact HS).
+    assert (Hfinal : forall st', st' = build f (closedf r1) a' -> sim sym' a' r1 st').
+    { intros st' E. eapply (sim_change sym sym' a a' r r1 st' HS0 Hsh I1 Hn); auto.
+      - apply upd_span_skel. exact Hg.
+      - intros j. apply upd_span_raw. exact Hraw.
+      - apply upd_span_fol; [exact (sm_fol _ _ _ _ _ _ HS) | exact Hfol]. }
+    rewrite Hm, A. destruct (f (as_meta x)) eqn:Ef.
+    - rewrite Hst.
+      rewrite (build_payload_update f (closedf r1) a a' k x g G Hx Ef Hg (Hfol x)); try reflexivity.
+      + cbn [of_outcome rbind]. eexists. split; [reflexivity|]. apply Hfinal. reflexivity.
+      + intros c. apply HG. exact A.
+    - eexists. split; [reflexivity|]. apply Hfinal. rewrite Hst. symmetry.
+      apply (build_update_uncaptured f (closedf r1) a a' k x g Hx Ef Hg); reflexivity.
+  Qed.
+
+  Variable sites : list cs_data.
+  Variable ids : list N.
+  Notation deliver := (layer_step f key).
+  Notation sstep := (sub_step deliver sites ids).
+  Notation spec := (spec_step f sites ids).
+
+  Lemma step_record sym a r st k vals :
+    sim sym a r st -> live sym k = true ->
+    exists r' st', sstep (r, st) (0%nat, ORecord k vals) = ROk (r', st') /\
+                   sim sym (spec a (0%nat, ORecord k vals)) r' st'.
+  Proof.
+    intros HS Hl. destruct (inv_live_present _ _ _ _ (sm_inv _ _ _ _ _ _ HS) Hl) as [s Hs].
+    destruct (sm_span _ _ _ _ _ _ HS k s Hs) as (x & Hx & A & _).
+    set (vs := from_value_set (cs_fields (as_meta x)) vals).
+    destruct (payload_callback sym sym a r r st k s (as_record vs) (pl_record vs)
+                (fun r1 k st0 => deliver r1 0%nat (CbRecord k vals) st0) HS (same_shape_refl r)
+                (sm_inv _ _ _ _ _ _ HS) eq_refl Hs) as (st' & E & HS').
+    - intros y. split; reflexivity.
+    - reflexivity.
+    - reflexivity.
+    - intros y c _. reflexivity.
+    - intros s1 st0 Hs1. cbn [layer_step]. unfold ctx_span. rewrite Hs1. rewrite Hs in Hs1. injection Hs1 as <-.
+      rewrite A. reflexivity.
+    - exists r, st'. split; [exact E|].
+      unfold spec_step. cbn [snd fst]. rewrite (sm_sym _ _ _ _ _ _ HS). cbn [sym_next snd].
+      replace (upd_span (a_spans a) k (fun s0 => as_record (from_value_set (cs_fields (as_meta s0)) vals) s0))
+        with (upd_span (a_spans a) k (as_record vs)); [exact HS'|].
+      unfold upd_span. rewrite Hx. reflexivity.
+  Qed.
+
+  Lemma step_enter sym a r st k :
+    sim sym a r st -> live sym k = true ->
+    exists r' st', sstep (r, st) (0%nat, OEnter k) = ROk (r', st') /\
+                   sim (mk_sym (ss_spans sym) (set_stack (ss_stacks sym) 0 (k :: stk sym)))
+                       (spec a (0%nat, OEnter k)) r' st'.
+  Proof.
+    intros HS Hl. pose proof (sm_inv _ _ _ _ _ _ HS) as I.
+    destruct (inv_live_present _ _ _ _ I Hl) as [s Hs].
+    destruct (enter_ok sym r k I Hl) as (r1 & E1 & Hsh & I1).
+    destruct (payload_callback sym _ a r r1 st k s as_enter pl_enter
+                (fun r1 k st0 => deliver r1 0%nat (CbEnter k) st0) HS Hsh I1 eq_refl Hs) as (st' & E & HS').
+    - intros y. split; reflexivity.
+    - reflexivity.
+    - reflexivity.
+    - intros y c _. reflexivity.
+    - intros s1 st0 Hs1. cbn [layer_step]. unfold ctx_span. rewrite Hs1. reflexivity.
+    - exists r1, st'. split.
+      + unfold sub_step. cbn [fst snd]. rewrite E1. cbn [rbind]. exact E.
+      + unfold spec_step. cbn [snd fst]. rewrite (sm_sym _ _ _ _ _ _ HS). exact HS'.
+  Qed.
+
+  Lemma step_exit sym a r st k :
+    sim sym a r st -> live sym k = true -> on_stack (stk sym) k = true ->
+    exists r' st', sstep (r, st) (0%nat, OExit k) = ROk (r', st') /\
+                   sim (mk_sym (ss_spans sym) (set_stack (ss_stacks sym) 0 (remove_first (stk sym) k)))
+                       (spec a (0%nat, OExit k)) r' st'.
+  Proof.
+    intros HS Hl Hon. pose proof (sm_inv _ _ _ _ _ _ HS) as I.
+    destruct (inv_live_present _ _ _ _ I Hl) as [s Hs].
+    destruct (exit_ok deliver sym r st k I Hl Hon) as (r1 & E1 & Hsh & I1).
+    destruct (payload_callback sym _ a r r1 st k s as_exit pl_exit
+                (fun r1 k st0 => deliver r1 0%nat (CbExit k) st0) HS Hsh I1 eq_refl Hs) as (st' & E & HS').
+    - intros y. split; reflexivity.
+    - reflexivity.
+    - reflexivity.
+    - intros y c _. reflexivity.
+    - intros s1 st0 Hs1. cbn [layer_step]. unfold ctx_span. rewrite Hs1. reflexivity.
+    - exists r1, st'. split.
+      + unfold sub_step. cbn [fst snd].
+        destruct (reg_exit_pop r 0 k) as [rp fresh] eqn:Ep. rewrite E1. cbn [rbind]. exact E.
+      + unfold spec_step. cbn [snd fst]. rewrite (sm_sym _ _ _ _ _ _ HS). exact HS'.
+  Qed.
+
+  Lemma step_clone sym a r st k :
+    sim sym a r st -> live sym k = true ->
+    exists r' st', sstep (r, st) (0%nat, OClone k) = ROk (r', st') /\
+                   sim (mk_sym (set_handles (ss_spans sym) k (handles sym k + 1)) (ss_stacks sym))
+                       (spec a (0%nat, OClone k)) r' st'.
+  Proof.
+    intros HS Hl. pose proof (sm_inv _ _ _ _ _ _ HS) as I.
+    destruct (clone_ok sym r k I Hl) as (s & Hs & E1 & I1).
+    exists (reg_set r k (with_refs s (rs_refs s + 1))), st. split.
+    - unfold sub_step. cbn [fst snd]. rewrite E1. reflexivity.
+    - unfold spec_step. cbn [snd fst]. rewrite (sm_sym _ _ _ _ _ _ HS). cbn [sym_next snd].
+      pose proof (sm_st _ _ _ _ _ _ HS) as Hst.
+      assert (HS0 : sim sym a r (build f (closedf r) a)) by (rewrite <- Hst; exact HS).
+      eapply (sim_change sym _ a _ r _ st HS0 (same_shape_refs r k s _ Hs) I1); auto.
+      + unfold n_spans. cbn. apply set_handles_length.
+      + exact (sm_fol _ _ _ _ _ _ HS).
+      + rewrite Hst. symmetry. etransitivity; [apply (closedf_shape f r _ _ (same_shape_refs r k s _ Hs))|].
+        reflexivity.
+  Qed.
+
+  (** *** follows-from *)
+  Lemma find_raw_open raw : forall (rl : list (option rspan)) (al : list aspan) b,
+    List.length rl = List.length al ->
+    (forall j s, nth_error rl j = Some (Some s) -> exists x, nth_error al j = Some x /\ rs_raw s = as_raw x) ->
+    find_open_raw al (map is_some rl) b raw = find_raw rl b raw.
+  Proof.
+    induction rl as [|o rl IH]; intros [|x al] b Hl H; cbn in Hl; try discriminate; [reflexivity|].
+    cbn [map find_open_raw find_raw].
+    assert (Hrest : forall j s, nth_error rl j = Some (Some s) -> exists y, nth_error al j = Some y /\ rs_raw s = as_raw y).
+    { intros j s Hj. apply (H (S j) s Hj). }
+    destruct o as [s|]; cbn [is_some andb].
+    - destruct (H O s eq_refl) as (y & Hy & Hr). cbn in Hy. injection Hy as <-. rewrite Hr.
+      destruct (as_raw x =? raw); [reflexivity|]. apply IH; [lia | exact Hrest].
+    - apply IH; [lia | exact Hrest].
+  Qed.
+
+  Lemma find_raw_present raw : forall l b j, find_raw l b raw = Some j ->
+    (b <= j)%nat /\ exists s, nth_error l (j - b) = Some (Some s).
+  Proof.
+    induction l as [|o l IH]; intros b j H; cbn in H; [discriminate|].
+    destruct o as [s|].
+    - destruct (rs_raw s =? raw).
+      + injection H as <-. split; [lia|]. rewrite Nat.sub_diag. exists s. reflexivity.
+      + destruct (IH _ _ H) as [Hle (s' & Hs')]. split; [lia|]. exists s'.
+        replace (j - b)%nat with (S (j - S b)) by lia. exact Hs'.
+    - destruct (IH _ _ H) as [Hle (s' & Hs')]. split; [lia|]. exists s'.
+      replace (j - b)%nat with (S (j - S b)) by lia. exact Hs'.
+  Qed.
+
+  Lemma sim_follow_target sym a r st t :
+    sim sym a r st -> follow_target_of a t = resolve_target r t.
+  Proof.
+    intros HS. destruct t as [j|raw]; cbn.
+    - rewrite (sim_open f key _ _ _ _ j HS). reflexivity.
+    - rewrite (sim_open_flags f key _ _ _ _ HS). unfold ctx_span_raw. apply find_raw_open.
+      + pose proof (ri_len _ _ _ (sm_inv _ _ _ _ _ _ HS)) as H1. unfold reg_next in H1.
+        rewrite H1, (sm_len _ _ _ _ _ _ HS). reflexivity.
+      + intros j s Hj. assert (Hs : reg_get r j = Some s) by (unfold reg_get; rewrite Hj; reflexivity).
+        destruct (sm_span _ _ _ _ _ _ HS j s Hs) as (x & Hx & _ & B & _). eauto.
+  Qed.
+
+  Lemma resolve_present r t j : resolve_target r t = Some j -> exists s, reg_get r j = Some s.
+  Proof.
+    destruct t as [i|raw]; cbn.
+    - destruct (reg_present r i) eqn:E; [|discriminate]. intros H. injection H as <-.
+      apply reg_present_get. exact E.
+    - unfold ctx_span_raw. intros H. apply find_raw_present in H as [_ (s & Hs)].
+      rewrite Nat.sub_0_r in Hs. exists s. unfold reg_get. rewrite Hs. reflexivity.
+  Qed.
+
+  Lemma sim_same sym a r st a' :
+    sim sym a r st -> a_sym a' = sym -> a_spans a' = a_spans a -> a_events a' = a_events a -> sim sym a' r st.
+  Proof.
+    intros HS H1 H2 H3. pose proof (sm_st _ _ _ _ _ _ HS) as Hst.
+    assert (HS0 : sim sym a r (build f (closedf r) a)) by (rewrite <- Hst; exact HS).
+    eapply (sim_change sym sym a a' r r st HS0 (same_shape_refl r) (sm_inv _ _ _ _ _ _ HS)); auto.
+    - rewrite H2. reflexivity.
+    - intros k. rewrite H2. reflexivity.
+    - rewrite H2. exact (sm_fol _ _ _ _ _ _ HS).
+    - rewrite Hst. unfold build, build_span, build_event. rewrite H2, H3. reflexivity.
+  Qed.
+
+  Lemma step_follows sym a r st k t :
+    sim sym a r st -> live sym k = true ->
+    exists r' st', sstep (r, st) (0%nat, OFollows k t) = ROk (r', st') /\
+                   sim sym (spec a (0%nat, OFollows k t)) r' st'.
+  Proof.
+    intros HS Hl. pose proof (sm_inv _ _ _ _ _ _ HS) as I.
+    destruct (inv_live_present _ _ _ _ I Hl) as [s Hs].
+    unfold sub_step, spec_step. cbn [fst snd layer_step]. unfold ctx_span. rewrite Hs.
+    rewrite (sim_follow_target _ _ _ _ t HS), (sm_sym _ _ _ _ _ _ HS). cbn [sym_next snd].
+    destruct (resolve_target r t) as [fid|] eqn:Et.
+    2:{ exists r, st. split; [reflexivity|]. apply (sim_same sym a r st); auto. }
+    destruct (resolve_present _ _ _ Et) as [fs Hfs]. rewrite Hfs.
+    pose proof (sm_span _ _ _ _ _ _ HS k s Hs) as Hok. pose proof (sm_span _ _ _ _ _ _ HS fid fs Hfs) as Hokf.
+    rewrite (span_ok_captured f key a k s Hok), (span_ok_captured f key a fid fs Hokf).
+    destruct Hok as (x & Hx & A & _). destruct Hokf as (xf & Hxf & Af & _).
+    rewrite (sim_open f key _ _ _ _ k HS). unfold reg_present. rewrite Hs. cbn [andb].
+    unfold captured. rewrite Hx, Hxf, A, Af.
+    destruct (f (as_meta x)) eqn:Ef; cbn [andb].
+    2:{ exists r, st. split; [reflexivity|]. apply (sim_same sym a r st); auto. }
+    destruct (f (as_meta xf)) eqn:Eff.
+    2:{ exists r, st. split; [reflexivity|]. apply (sim_same sym a r st); auto. }
+    pose proof (sm_st _ _ _ _ _ _ HS) as Hst. rewrite Hst.
+    set (a' := mk_astate sym (upd_span (a_spans a) k (as_follow fid)) (a_events a)).
+    rewrite (build_follow f (closedf r) a a' k x fid Hx Ef eq_refl eq_refl). cbn [of_outcome rbind].
+    exists r, (build f (closedf r) a'). split; [reflexivity|].
+    assert (HS0 : sim sym a r (build f (closedf r) a)) by (rewrite <- Hst; exact HS).
+    eapply (sim_change sym sym a a' r r _ HS0 (same_shape_refl r) I); auto.
+    - apply upd_span_skel. intros y. split; reflexivity.
+    - intros j. apply upd_span_raw. reflexivity.
+    - intros j y c Hj Hc. cbn [a_spans a'] in *. rewrite upd_span_length. rewrite upd_span_nth in Hj.
+      destruct (Nat.eqb j k).
+      + destruct (nth_error (a_spans a) j) as [y0|] eqn:E; [|discriminate]. cbn in Hj. injection Hj as <-.
+        cbn [as_follows as_follow] in Hc. apply in_app_or in Hc as [Hc | [<- | []]].
+        * eapply (sm_fol _ _ _ _ _ _ HS); eauto.
+        * apply nth_error_Some. congruence.
+      + eapply (sm_fol _ _ _ _ _ _ HS); eauto.
+  Qed.
+
+  (** *** events *)
+  Lemma sim_scope_attach sym a r st c :
+    sim sym a r st -> reg_present r c = true ->
+    scope_find r key (scope_of r c) = option_map (cap_rank f (a_spans a)) (attach f (a_spans a) (Some c)).
+  Proof.
+    intros HS Hc. pose proof (sm_inv _ _ _ _ _ _ HS) as I.
+    assert (Hlt : (c < List.length (a_spans a))%nat).
+    { apply reg_present_get in Hc as [s Hs]. apply reg_get_lt in Hs.
+      rewrite (ri_len _ _ _ I) in Hs. rewrite (sm_len _ _ _ _ _ _ HS). exact Hs. }
+    unfold scope_of, attach.
+    apply (scope_find_nearest f key r (a_spans a) (List.length (a_spans a))); try lia; [| |exact Hc].
+    - intros k s Hs _. pose proof (sm_span _ _ _ _ _ _ HS k s Hs) as Hok.
+      pose proof (span_ok_captured f key a k s Hok) as Hcap. destruct Hok as (x & Hx & A & _ & C & _).
+      exists x. rewrite Hcap, A. auto.
+    - intros k s p Hs Hp. split; [eapply (ri_parent _ _ _ I); eauto|].
+      destruct (inv_parent_present _ _ _ _ _ _ I Hs Hp) as [ps Hps]. unfold reg_present. rewrite Hps. reflexivity.
+  Qed.
+
+  Lemma sim_event_parent sym a r st pk :
+    sim sym a r st -> wf_parent sym pk = true ->
+    (match ctx_event_scope r 0 pk with Some scope => scope_find r key scope | None => None end)
+    = option_map (cap_rank f (a_spans a)) (attach f (a_spans a) (logical_parent sym 0 pk)) /\
+    (forall p, logical_parent sym 0 pk = Some p -> (p < List.length (a_spans a))%nat).
+  Proof.
+    intros HS Hwf. pose proof (sm_inv _ _ _ _ _ _ HS) as I.
+    assert (Hbound : forall c, reg_present r c = true -> (c < List.length (a_spans a))%nat).
+    { intros c Hc. apply reg_present_get in Hc as [s Hs]. apply reg_get_lt in Hs.
+      rewrite (ri_len _ _ _ I) in Hs. rewrite (sm_len _ _ _ _ _ _ HS). exact Hs. }
+    unfold ctx_event_scope, ctx_event_span, ctx_lookup_current, logical_parent.
+    destruct pk as [| |j]; cbn [wf_parent] in Hwf.
+    - rewrite (current_ok _ _ I).
+      change (spec_current (stack_of (ss_stacks sym) 0)) with (first_outer (stk sym)).
+      destruct (first_outer (stk sym)) as [c|] eqn:Ec; cbn [option_map].
+      + apply first_outer_on_stack in Ec. destruct (inv_stack_present _ _ _ _ I Ec) as [s Hs].
+        assert (Hp : reg_present r c = true) by (unfold reg_present; rewrite Hs; reflexivity).
+        split; [apply (sim_scope_attach _ _ _ _ c HS Hp)|]. intros p E. injection E as <-. auto.
+      + split; [reflexivity | discriminate].
+    - split; [reflexivity | discriminate].
+    - destruct (inv_live_present _ _ _ _ I Hwf) as [s Hs].
+      assert (Hp : reg_present r j = true) by (unfold reg_present; rewrite Hs; reflexivity).
+      rewrite Hp. cbn [option_map]. split; [apply (sim_scope_attach _ _ _ _ j HS Hp)|].
+      intros p E. injection E as <-. auto.
+  Qed.
+
+  Lemma step_event sym a r st cs pk vals meta :
+    sim sym a r st -> nth_error sites cs = Some meta -> wf_parent sym pk = true ->
+    exists r' st', sstep (r, st) (0%nat, OEvent cs pk vals) = ROk (r', st') /\
+                   sim sym (spec a (0%nat, OEvent cs pk vals)) r' st'.
+  Proof.
+    intros HS Hcs Hwf. unfold sub_step, spec_step. cbn [fst snd layer_step]. rewrite Hcs.
+    rewrite (sm_sym _ _ _ _ _ _ HS). cbn [sym_next snd].
+    destruct (f meta) eqn:Ef; cbn [negb].
+    2:{ exists r, st. split; [reflexivity|]. apply (sim_same sym a r st); auto. }
+    destruct (sim_event_parent _ _ _ _ pk HS Hwf) as [Hpar Hlp]. rewrite Hpar.
+    set (e := mk_aevent meta (logical_parent sym 0 pk) (from_value_set (cs_fields meta) vals)).
+    set (a' := mk_astate sym (a_spans a) (a_events a ++ [e])).
+    pose proof (sm_st _ _ _ _ _ _ HS) as Hst. rewrite Hst.
+    pose proof (build_new_event f (closedf r) a a' e eq_refl eq_refl) as Hb. cbn [ae_meta ae_values ae_lparent e] in Hb.
+    rewrite Hb. cbn [of_outcome rbind].
+    exists r, (build f (closedf r) a'). split; [reflexivity|].
+    constructor; auto.
+    - exact (sm_inv _ _ _ _ _ _ HS).
+    - exact (sm_len _ _ _ _ _ _ HS).
+    - exact (sm_span _ _ _ _ _ _ HS).
+    - exact (sm_plt _ _ _ _ _ _ HS).
+    - intros i e' p Hi Hp. cbn [a_events a'] in Hi. rewrite nth_error_snoc' in Hi.
+      destruct (Nat.ltb i (List.length (a_events a))).
+      + eapply (sm_evb _ _ _ _ _ _ HS); eauto.
+      + destruct (Nat.eqb i (List.length (a_events a))); [|discriminate]. injection Hi as <-.
+        apply Hlp. exact Hp.
+    - exact (sm_fol _ _ _ _ _ _ HS).
+  Qed.
+
+  (** *** closing *)
+  Lemma closedf_remove r k j : closedf (reg_remove r k) j = if Nat.eqb j k then true else closedf r j.
+  Proof. unfold closedf, reg_present. rewrite reg_get_remove. destruct (Nat.eqb j k); reflexivity. Qed.
+
+  Lemma cascade sym' a : forall fuel r st k,
+    (k < fuel)%nat -> reg_inv_ex sym' r (Some k) ->
+    (forall j s, reg_get r j = Some s -> span_ok a j s) -> st = build f (closedf r) a ->
+    reg_present r k = true ->
+    exists r' st', sub_try_close deliver fuel r st 0 k = ROk (r', st') /\ reg_inv sym' r' /\
+      (forall j s, reg_get r' j = Some s -> span_ok a j s) /\ st' = build f (closedf r') a.
+  Proof.
+    induction fuel as [|fuel IH]; intros r st k Hk I Hok Hst Hp; [lia|].
+    apply reg_present_get in Hp as [s Hs].
+    cbn [sub_try_close]. unfold reg_try_close. rewrite Hs. cbn [rbind].
+    set (r1 := reg_set r k (with_refs s (rs_refs s - 1))).
+    assert (Hsh : same_shape r r1) by (apply same_shape_refs; exact Hs).
+    assert (Hok1 : forall j s1, reg_get r1 j = Some s1 -> span_ok a j s1).
+    { intros j s1 Hj. unfold r1 in Hj. rewrite (reg_get_set_present _ _ _ _ _ Hs) in Hj.
+      destruct (Nat.eqb_spec j k) as [->|]; [|apply Hok; exact Hj]. injection Hj as <-.
+      destruct (Hok k s Hs) as (x & A & B & C & D & E). exists x. auto. }
+    assert (Hst1 : st = build f (closedf r1) a) by (rewrite Hst; symmetry; apply closedf_shape; exact Hsh).
+    destruct (N.leb_spec (rs_refs s) 1) as [Hle|Hgt].
+    - (* last reference: the layer is told, then the slot is cleared *)
+      pose proof (try_close_last_refs _ _ _ _ I Hs Hle) as Hone.
+      assert (Hs1 : reg_get r1 k = Some (with_refs s (rs_refs s - 1))).
+      { unfold r1. rewrite (reg_get_set_present _ _ _ _ _ Hs), Nat.eqb_refl. reflexivity. }
+      cbn [layer_step]. unfold ctx_span. rewrite Hs1.
+      pose proof (Hok1 k _ Hs1) as Hokk. rewrite (span_ok_captured f key a k _ Hokk).
+      destruct Hokk as (x & Hx & A & _ & Cp & _). cbn [rs_meta with_refs] in A. cbn [rs_parent with_refs] in Cp.
+      cbn [rs_meta with_refs]. rewrite A.
+      destruct (inv_remove _ _ _ _ I Hs Hone) as (_ & _ & _ & I3).
+      assert (Hrem : reg_remove r1 k = reg_remove r k) by apply reg_remove_set.
+      assert (Hok3 : forall j s3, reg_get (reg_remove r k) j = Some s3 -> span_ok a j s3).
+      { intros j s3 Hj. rewrite reg_get_remove in Hj. destruct (Nat.eqb j k); [discriminate|]. apply Hok. exact Hj. }
+      assert (Hfin : forall st2, st2 = build f (closedf (reg_remove r k)) a ->
+                exists r' st', match rs_parent s with
+                               | Some p => sub_try_close deliver fuel (reg_remove r k) st2 0 p
+                               | None => ROk (reg_remove r k, st2)
+                               end = ROk (r', st') /\ reg_inv sym' r' /\
+                  (forall j s', reg_get r' j = Some s' -> span_ok a j s') /\ st' = build f (closedf r') a).
+      { intros st2 Hst2. destruct (rs_parent s) as [p|] eqn:Ep.
+        - pose proof (ri_parent _ _ _ I k s p Hs Ep) as Hlt.
+          destruct (inv_parent_present _ _ _ _ _ _ I Hs Ep) as [ps Hps].
+          apply (IH (reg_remove r k) st2 p); auto; [lia|].
+          unfold reg_present. rewrite reg_get_remove. destruct (Nat.eqb_spec p k); [lia|]. rewrite Hps. reflexivity.
+        - exists (reg_remove r k), st2. split; [reflexivity|]. split; [exact I3|]. split; [exact Hok3 | exact Hst2]. }
+      destruct (f (as_meta x)) eqn:Ef.
+      + rewrite Hst1. rewrite (build_close f (closedf r1) a k x Hx Ef). cbn [of_outcome rbind].
+        rewrite Hs1. cbn [rs_parent with_refs]. rewrite Hrem. apply Hfin.
+        apply build_closed_ext. intros j _. rewrite closedf_remove.
+        destruct (Nat.eqb j k); [reflexivity|]. unfold closedf. rewrite (same_shape_present _ _ j Hsh). reflexivity.
+      + cbn [rbind]. rewrite Hs1. cbn [rs_parent with_refs]. rewrite Hrem. apply Hfin.
+        rewrite Hst. apply build_closed_ext. intros j Hj. rewrite closedf_remove.
+        destruct (Nat.eqb_spec j k) as [->|]; [|reflexivity].
+        unfold captured in Hj. rewrite Hx in Hj. congruence.
+    - (* other references remain *)
+      exists r1, st. split; [reflexivity|]. split; [apply (try_close_keep _ _ _ _ I Hs Hgt)|].
+      split; [exact Hok1 | exact Hst1].
+  Qed.
+
+  Lemma step_drop sym a r st k :
+    sim sym a r st -> live sym k = true ->
+    exists r' st', sstep (r, st) (0%nat, ODrop k) = ROk (r', st') /\
+                   sim (mk_sym (set_handles (ss_spans sym) k (handles sym k - 1)) (ss_stacks sym))
+                       (spec a (0%nat, ODrop k)) r' st'.
+  Proof.
+    intros HS Hl. pose proof (sm_inv _ _ _ _ _ _ HS) as I.
+    destruct (inv_live_present _ _ _ _ I Hl) as [s Hs].
+    set (sym' := mk_sym (set_handles (ss_spans sym) k (handles sym k - 1)) (ss_stacks sym)).
+    destruct (cascade sym' a (close_fuel r) r st k) as (r' & st' & E & I' & Hok' & Hst').
+    - unfold close_fuel. apply reg_get_lt in Hs. lia.
+    - apply drop_start; assumption.
+    - exact (sm_span _ _ _ _ _ _ HS).
+    - exact (sm_st _ _ _ _ _ _ HS).
+    - unfold reg_present. rewrite Hs. reflexivity.
+    - exists r', st'. split; [exact E|].
+      unfold spec_step. cbn [fst snd]. rewrite (sm_sym _ _ _ _ _ _ HS). cbn [sym_next snd]. fold sym'.
+      constructor; auto.
+      + cbn [a_spans]. rewrite (sm_len _ _ _ _ _ _ HS). unfold n_spans, sym'. cbn. symmetry. apply set_handles_length.
+      + exact (sm_plt _ _ _ _ _ _ HS).
+      + exact (sm_evb _ _ _ _ _ _ HS).
+      + exact (sm_fol _ _ _ _ _ _ HS).
+  Qed.
+
+  (** *** a new span *)
+  Lemma step_new_span sym a r st cs pk vals meta :
+    sim sym a r st -> nth_error sites cs = Some meta -> wf_parent sym pk = true ->
+    exists r' st', sstep (r, st) (0%nat, ONewSpan cs pk vals) = ROk (r', st') /\
+                   sim (mk_sym (ss_spans sym ++ [mk_sspan cs 1]) (ss_stacks sym))
+                       (spec a (0%nat, ONewSpan cs pk vals)) r' st'.
+  Proof.
+    intros HS Hcs Hwf. pose proof (sm_inv _ _ _ _ _ _ HS) as I.
+    set (sym' := mk_sym (ss_spans sym ++ [mk_sspan cs 1]) (ss_stacks sym)).
+    assert (Hn : reg_next r = List.length (a_spans a)).
+    { rewrite (ri_len _ _ _ I), (sm_len _ _ _ _ _ _ HS). reflexivity. }
+    set (raw := raw_of ids (reg_next r)).
+    destruct (new_span_ok sym r cs meta pk raw I Hwf) as (r1 & E1 & Hsh & Hlp & I2).
+    set (lp := match pk with PKRoot => None | PKExplicit j => Some j | PKCtx => first_outer (stk sym) end) in *.
+    assert (Elp : logical_parent sym 0 pk = lp).
+    { unfold logical_parent, lp. destruct pk; reflexivity. }
+    set (new := mk_rspan meta raw lp 1 []) in *.
+    set (r2 := reg_app r1 new) in *.
+    set (x := mk_aspan meta raw lp (from_value_set (cs_fields meta) vals) 0 0 []).
+    set (a' := mk_astate sym' (a_spans a ++ [x]) (a_events a)).
+    assert (Ea' : spec a (0%nat, ONewSpan cs pk vals) = a').
+    { unfold spec_step. cbn [fst snd]. rewrite Hcs, (sm_sym _ _ _ _ _ _ HS), Elp. cbn [sym_next snd].
+      unfold a', x, raw. rewrite Hn. reflexivity. }
+    rewrite Ea'.
+    assert (Hn1 : reg_next r1 = reg_next r) by (destruct Hsh; assumption).
+    assert (Hlpn : forall p, lp = Some p -> (p < List.length (a_spans a))%nat).
+    { intros p Ep. destruct (Hlp p Ep) as [ps Hps]. apply reg_get_lt in Hps. lia. }
+    (* the Registry after [new_span] *)
+    assert (Hget2 : forall j, reg_get r2 j = if Nat.eqb j (reg_next r) then Some new else reg_get r1 j).
+    { intros j. unfold r2. rewrite reg_get_app, Hn1. reflexivity. }
+    assert (Hold : forall j s1, reg_get r1 j = Some s1 -> span_ok a' j s1).
+    { intros j s1 Hj. destruct Hsh as [_ Hsh]. specialize (Hsh j). rewrite Hj in Hsh.
+      destruct (reg_get r j) as [s|] eqn:Es; [|discriminate]. cbn in Hsh. injection Hsh as Hm Hr Hp He.
+      destruct (sm_span _ _ _ _ _ _ HS j s Es) as (y & Hy & A & B & C & D).
+      assert (Hj' : (j < List.length (a_spans a))%nat) by (apply nth_error_Some; congruence).
+      exists y. cbn [a_spans a']. rewrite nth_error_app1 by exact Hj'. rewrite cap_rank_app by lia.
+      rewrite Hm, Hr, Hp, He. auto. }
+    assert (Hplt' : plt (a_spans a')).
+    { intros j y p Hj Hp. cbn [a_spans a'] in Hj. rewrite nth_error_snoc' in Hj.
+      destruct (Nat.ltb_spec j (List.length (a_spans a))).
+      - eapply (sm_plt _ _ _ _ _ _ HS); eauto.
+      - destruct (Nat.eqb_spec j (List.length (a_spans a))) as [->|]; [|discriminate].
+        injection Hj as <-. cbn in Hp. apply Hlpn. exact Hp. }
+    assert (Hevb' : evs_bounded (a_spans a') (a_events a')).
+    { intros i e p Hi Hp. cbn [a_spans a_events a'] in *. rewrite app_length. cbn.
+      pose proof (sm_evb _ _ _ _ _ _ HS i e p Hi Hp). lia. }
+    assert (Hfol' : fol_bounded (a_spans a')).
+    { intros j y c Hj Hc. cbn [a_spans a'] in *. rewrite app_length. cbn. rewrite nth_error_snoc' in Hj.
+      destruct (Nat.ltb_spec j (List.length (a_spans a))).
+      - pose proof (sm_fol _ _ _ _ _ _ HS j y c Hj Hc). lia.
+      - destruct (Nat.eqb j (List.length (a_spans a))); [|discriminate]. injection Hj as <-. destruct Hc. }
+    assert (Hlen' : List.length (a_spans a') = n_spans sym').
+    { cbn [a_spans a']. rewrite app_length. unfold n_spans, sym'. cbn. rewrite app_length.
+      cbn. rewrite (sm_len _ _ _ _ _ _ HS). reflexivity. }
+    assert (Hpres : forall R, (forall j, (j < List.length (a_spans a))%nat -> reg_present R j = reg_present r1 j) ->
+              forall j, (j < List.length (a_spans a))%nat -> closedf R j = closedf r j).
+    { intros R HR j Hj. unfold closedf. rewrite (HR j Hj), (same_shape_present _ _ j Hsh). reflexivity. }
+    unfold sub_step. cbn [fst snd]. rewrite Hcs. fold raw. rewrite E1. cbn [rbind layer_step]. fold r2.
+    destruct (f meta) eqn:Ef; cbn [negb].
+    - (* captured *)
+      assert (Hnew : reg_get r2 (reg_next r) = Some new) by (rewrite Hget2, Nat.eqb_refl; reflexivity).
+      unfold ctx_span_scope, ctx_span. rewrite Hnew.
+      assert (Hpar : scope_find r2 key (scope_of r2 (reg_next r))
+                     = option_map (cap_rank f (a_spans a)) (attach f (a_spans a) lp)).
+      { unfold scope_of. cbn [scope_from]. rewrite Hnew. cbn [scope_find]. rewrite Hnew.
+        unfold captured_id. cbn [rs_ext new ext_find rs_parent].
+        destruct lp as [p|] eqn:Ep; [|reflexivity].
+        destruct (Hlp p eq_refl) as [ps Hps]. pose proof (reg_get_lt _ _ _ Hps) as Hplt.
+        unfold attach.
+        apply (scope_find_nearest f key r2 (a_spans a) (List.length (a_spans a))); try lia.
+        - intros c s Hs Hc. rewrite Hget2 in Hs. destruct (Nat.eqb_spec c (reg_next r)); [lia|].
+          destruct (proj2 Hsh c) as []. pose proof (proj2 Hsh c) as Hc2. rewrite Hs in Hc2.
+          destruct (reg_get r c) as [s0|] eqn:Es0; [|discriminate]. cbn in Hc2. injection Hc2 as Hm _ Hp He.
+          pose proof (sm_span _ _ _ _ _ _ HS c s0 Es0) as Hok0.
+          pose proof (span_ok_captured f key a c s0 Hok0) as Hcap.
+          destruct Hok0 as (y & Hy & A & _ & C & _). exists y.
+          unfold captured_id in *. rewrite Hm, Hp, He, Hcap, A. auto.
+        - intros c s q Hs Hq. split; [eapply (ri_parent _ _ _ I2); eauto|].
+          destruct (inv_parent_present _ _ _ _ _ _ I2 Hs Hq) as [qs Hqs]. unfold reg_present. rewrite Hqs. reflexivity.
+        - unfold reg_present. rewrite Hget2. destruct (Nat.eqb_spec p (reg_next r)); [lia|].
+          destruct (same_shape_get _ _ _ _ Hsh Hps) as (ps1 & Hps1 & _). rewrite Hps1. reflexivity. }
+      rewrite Hpar. rewrite (sm_st _ _ _ _ _ _ HS).
+      set (r3 := reg_set_ext r2 (reg_next r) ([] ++ [(key, cap_rank f (a_spans a) (List.length (a_spans a)))])).
+      assert (Hget3 : forall j, reg_get r3 j = if Nat.eqb j (reg_next r)
+                                               then Some (with_ext new [(key, cap_rank f (a_spans a) (List.length (a_spans a)))])
+                                               else reg_get r1 j).
+      { intros j. unfold r3, reg_set_ext. rewrite Hnew. rewrite (reg_get_set_present _ _ _ _ _ Hnew), Hget2.
+        destruct (Nat.eqb j (reg_next r)); reflexivity. }
+      assert (Hb : push_span (build f (closedf r) a) (mk_spl meta (from_value_set (cs_fields meta) vals) 0 0 false)
+                     (option_map (cap_rank f (a_spans a)) (attach f (a_spans a) lp))
+                   = Done (build f (closedf r3) a', cap_rank f (a_spans a) (List.length (a_spans a)))).
+      { apply (build_new_captured f a a' x (closedf r) (closedf r3)); auto.
+        - exact (sm_plt _ _ _ _ _ _ HS).
+        - exact (sm_evb _ _ _ _ _ _ HS).
+        - exact (sm_fol _ _ _ _ _ _ HS).
+        - apply Hpres. intros j Hj. unfold reg_present. rewrite Hget3.
+          destruct (Nat.eqb_spec j (reg_next r)); [lia | reflexivity].
+        - unfold closedf, reg_present. rewrite <- Hn, Hget3, Nat.eqb_refl. reflexivity. }
+      rewrite Hb. cbn [of_outcome rbind rs_ext new].
+      exists r3, (build f (closedf r3) a'). split; [reflexivity|].
+      constructor; auto.
+      + apply reg_inv_ext. exact I2.
+      + intros j s3 Hj. rewrite Hget3 in Hj. destruct (Nat.eqb_spec j (reg_next r)) as [->|].
+        * injection Hj as <-. exists x. cbn [a_spans a']. rewrite Hn, nth_error_app2, Nat.sub_diag by lia.
+          cbn [nth_error rs_meta rs_raw rs_parent rs_ext with_ext new as_meta as_raw as_lparent x].
+          rewrite Ef, cap_rank_app by lia. auto.
+        * apply Hold. exact Hj.
+    - (* filtered out *)
+      exists r2, st. split; [reflexivity|].
+      constructor; auto.
+      + intros j s2 Hj. rewrite Hget2 in Hj. destruct (Nat.eqb_spec j (reg_next r)) as [->|].
+        * injection Hj as <-. exists x. cbn [a_spans a']. rewrite Hn, nth_error_app2, Nat.sub_diag by lia.
+          cbn [nth_error rs_meta rs_raw rs_parent rs_ext new as_meta as_raw as_lparent x].
+          rewrite Ef. auto.
+        * apply Hold. exact Hj.
+      + rewrite (sm_st _ _ _ _ _ _ HS). symmetry.
+        apply (build_new_uncaptured f a a' x (closedf r) (closedf r2)); auto.
+        * exact (sm_plt _ _ _ _ _ _ HS).
+        * exact (sm_evb _ _ _ _ _ _ HS).
+        * exact (sm_fol _ _ _ _ _ _ HS).
+        * apply Hpres. intros j Hj. unfold reg_present. rewrite Hget2.
+          destruct (Nat.eqb_spec j (reg_next r)); [lia | reflexivity].
+  Qed.
+
+  (** *** all calls *)
+  Lemma sim_init : sim sym_init a_init reg_init empty_storage.
+  Proof.
+    constructor; try reflexivity.
+    - exact inv_init.
+    - intros k s H. unfold reg_get in H. cbn in H. destruct k; discriminate.
+    - intros k s p H. destruct k; discriminate.
+    - intros i e p H. destruct i; discriminate.
+    - intros k s j H. destruct k; discriminate.
+  Qed.
+
+  Lemma step_refine sym a r st o sym' :
+    sim sym a r st -> fst o = 0%nat -> wf_step true sites sym o = Some sym' ->
+    exists r' st', sstep (r, st) o = ROk (r', st') /\ sim sym' (spec a o) r' st'.
+  Proof.
+    intros HS Ht Hwf. destruct o as [tid op]. cbn in Ht. subst tid.
+    unfold wf_step in Hwf. cbn [fst snd] in Hwf.
+    destruct op as [cs pk vals | k vals | k | k | k | k | k t | cs pk vals].
+    - destruct (wf_site_use sites KSpan cs vals && wf_parent sym pk) eqn:E; [|discriminate].
+      injection Hwf as <-. apply andb_true_iff in E as [E1 E2]. unfold wf_site_use in E1.
+      destruct (nth_error sites cs) as [meta|] eqn:Ecs; [|discriminate].
+      apply (step_new_span sym a r st cs pk vals meta HS Ecs E2).
+    - destruct (span_site sym k); [|discriminate].
+      destruct (live sym k && wf_valset (site_fields sites n) vals) eqn:E; [|discriminate].
+      injection Hwf as <-. apply andb_true_iff in E as [E1 _]. apply (step_record sym a r st k vals HS E1).
+    - destruct (live sym k) eqn:E; [|discriminate]. injection Hwf as <-.
+      apply (step_enter sym a r st k HS E).
+    - destruct (live sym k && on_stack (stack_of (ss_stacks sym) 0) k) eqn:E; [|discriminate].
+      injection Hwf as <-. apply andb_true_iff in E as [E1 E2]. apply (step_exit sym a r st k HS E1 E2).
+    - destruct (live sym k) eqn:E; [|discriminate]. injection Hwf as <-.
+      apply (step_clone sym a r st k HS E).
+    - destruct (live sym k && (negb (handles sym k =? 1) || negb (on_any_stack sym k))) eqn:E; [|discriminate].
+      injection Hwf as <-. apply andb_true_iff in E as [E1 _]. apply (step_drop sym a r st k HS E1).
+    - destruct (live sym k && match t with FLive j => live sym j | FStale raw => true && wf_raw_id raw end) eqn:E;
+        [|discriminate].
+      injection Hwf as <-. apply andb_true_iff in E as [E1 _]. apply (step_follows sym a r st k t HS E1).
+    - destruct (wf_site_use sites KEvent cs vals && wf_parent sym pk) eqn:E; [|discriminate].
+      injection Hwf as <-. apply andb_true_iff in E as [E1 E2]. unfold wf_site_use in E1.
+      destruct (nth_error sites cs) as [meta|] eqn:Ecs; [|discriminate].
+      apply (step_event sym a r st cs pk vals meta HS Ecs E2).
+  Qed.
+
+  Lemma steps_refine : forall ops sym a r st symf,
+    sim sym a r st -> forallb (fun o => Nat.eqb (fst o) 0) ops = true ->
+    wf_steps true sites sym ops = Some symf ->
+    exists r' st', sub_steps deliver sites ids (r, st) ops = ROk (r', st') /\
+                   sim symf (fold_left spec ops a) r' st'.
+  Proof.
+    induction ops as [|o ops IH]; intros sym a r st symf HS Ht Hwf; cbn [sub_steps fold_left wf_steps] in *.
+    - injection Hwf as <-. exists r, st. split; [reflexivity | exact HS].
+    - apply andb_true_iff in Ht as [Ht1 Ht2]. apply Nat.eqb_eq in Ht1.
+      destruct (wf_step true sites sym o) as [sym'|] eqn:Eo; [|discriminate].
+      destruct (step_refine sym a r st o sym' HS Ht1 Eo) as (r1 & st1 & E1 & HS1).
+      rewrite E1. cbn [rbind]. apply (IH sym' _ r1 st1 symf HS1 Ht2 Hwf).
+  Qed.
+End Steps.
+
+(** ** The refinement theorem: for every filter, every id assignment and every well-formed
+    single-threaded program (stale follows-from targets allowed) the capture layer runs to completion
+    and its storage is the storage the specification prescribes *)
+Theorem capture_refines_spec_key (f : cs_data -> bool) (key : N) (ids : list N) (p : prog) :
+  wf_prog_stale p -> single_threaded p = true ->
+  exists r, sub_run (layer_step f key) ids p empty_storage = ROk (r, spec_storage f ids p).
+Proof.
+  intros Hwf Hst. unfold wf_prog_stale, wf_prog_stale_b, wf_prog_gen_b in Hwf.
+  apply andb_true_iff in Hwf as [_ Hwf]. unfold sym_run in Hwf.
+  destruct (wf_steps true (p_sites p) sym_init (p_ops p)) as [symf|] eqn:E; [|discriminate].
+  destruct (steps_refine f key (p_sites p) ids (p_ops p) sym_init a_init reg_init empty_storage symf
+              (sim_init f key) Hst E) as (r & st & Er & HS).
+  exists r. unfold sub_run. rewrite Er. f_equal. f_equal.
+  rewrite (sm_st _ _ _ _ _ _ HS). unfold spec_storage, spec_run.
+  apply build_closed_ext. intros k _. unfold closedf. rewrite (sim_open f key _ _ _ _ k HS). reflexivity.
+Qed.
+
+(** * Part C: stacks of layers *)
+Definition idpairs (ks : list N) : list (N * N) := map (fun k => (k, k)) ks.
+
+Lemma idpairs_in k k' ks : In (k, k') (idpairs ks) <-> k = k' /\ In k ks.
+Proof.
+  unfold idpairs. rewrite in_map_iff. split.
+  - intros (x & E & Hx). injection E as <- <-. auto.
+  - intros [<- H]. exists k. auto.
+Qed.
+
+Lemma idpairs_inj ks : rho_inj (idpairs ks).
+Proof.
+  intros j j' k k' H1 H2. apply idpairs_in in H1 as [<- _]. apply idpairs_in in H2 as [<- _]. tauto.
+Qed.
+
+Lemma single_inj k k' : rho_inj [(k, k')].
+Proof. intros a b c d [E1|[]] [E2|[]]. injection E1 as <- <-. injection E2 as <- <-. tauto. Qed.
+
+Section Stacks.
+  Variable ids : list N.
+  Variable p : prog.
+  Hypothesis Hwf : wf_prog_stale p.
+  Hypothesis Hst : single_threaded p = true.
+
+  Let run {L} (d : reg -> nat -> lcallback -> L -> result (reg * L)) (l0 : L) :=
+    sub_steps d (p_sites p) ids (reg_init, l0) (p_ops p).
+
+  (** the empty stack: the Registry alone runs the program *)
+  Lemma stack_nil_total : exists r, stack_run ids p [] = ROk (r, []).
+  Proof.
+    destruct (capture_refines_spec_key (fun _ => true) 0 ids p Hwf Hst) as [ra Ea].
+    unfold sub_run in Ea.
+    destruct (tri_steps (list layer) cstorage cstorage stack_deliver
+                (layer_step (fun _ => true) 0) (layer_step (fun _ => true) 0) [] []
+                (fun l _ _ => l = [])) with (sites := p_sites p) (ids := ids) (ops := p_ops p)
+                (x := (reg_init, @nil layer)) (a := (reg_init, @empty_storage span_payload event_payload))
+                (b := (reg_init, @empty_storage span_payload event_payload))
+                (a1 := (ra, spec_storage (fun _ => true) ids p)) (b1 := (ra, spec_storage (fun _ => true) ids p))
+      as ([r l] & E & _ & _ & Hl); auto.
+    - intros r ra0 rb0 l la lb tid cb [ra1 la1] [rb1 lb1] (Ha & Hb & Hl) Ea1 Eb1. cbn in Ha, Hb, Hl. subst l.
+      exists (r, []). split; [reflexivity|]. split; [|split; [|reflexivity]]; cbn.
+      + eapply layer_other_r; [|exact Ha|exact Ea1]. intros j [].
+      + eapply layer_other_r; [|exact Hb|exact Eb1]. intros j [].
+    - split; [apply reg_sim_refl_nil|]. split; [apply reg_sim_refl_nil | reflexivity].
+    - cbn in Hl. subst l. exists r. exact E.
+  Qed.
+
+  Theorem stacks_refine : forall ls,
+    stack_fresh ls = true -> NoDup (stack_keys ls) ->
+    exists r ls', stack_run ids p ls = ROk (r, ls') /\
+      stack_storages ls' = map (fun f => spec_storage f ids p) (stack_filters ls) /\
+      stack_keys ls' = stack_keys ls /\ stack_filters ls' = stack_filters ls.
+  Proof.
+    induction ls as [|[f k st0|] rest IH]; intros Hfresh Hnd.
+    - destruct stack_nil_total as [r E]. exists r, []. auto.
+    - (* a capture layer on top of the rest *)
+      cbn [stack_fresh] in Hfresh.
+      destruct st0 as [sp ev rs re]. cbn in Hfresh.
+      destruct sp; [|discriminate]. destruct ev; [|discriminate]. destruct rs; [|discriminate].
+      destruct re; [|discriminate].
+      cbn [stack_keys] in Hnd. inversion Hnd as [|? ? Hnotin Hnd']; subst.
+      destruct (IH Hfresh Hnd') as (rb & restb & Eb & Hsb & Hkb & Hfb).
+      destruct (capture_refines_spec_key f k ids p Hwf Hst) as [ra Ea].
+      unfold stack_run, sub_run in *.
+      set (RL := fun (l : list layer) (sta : cstorage) (lb : list layer) =>
+                   l = LCapture f k sta :: lb /\ stack_keys lb = stack_keys rest).
+      destruct (tri_steps (list layer) cstorage (list layer) stack_deliver (layer_step f k) stack_deliver
+                  [(k, k)] (idpairs (stack_keys rest)) RL) with (sites := p_sites p) (ids := ids) (ops := p_ops p)
+                  (x := (reg_init, LCapture f k empty_storage :: rest)) (a := (reg_init, @empty_storage span_payload event_payload))
+                  (b := (reg_init, rest)) (a1 := (ra, spec_storage f ids p)) (b1 := (rb, restb))
+        as ([r l] & E & _ & _ & Hl); auto.
+      + intros r ra0 rb0 l la lb tid cb [ra1 la1] [rb1 lb1] (Ha & Hb & Hl & Hkeys) Ea1 Eb1.
+        cbn in Ha, Hb, Hl, Hkeys. subst l. cbn [stack_deliver].
+        pose proof (layer_cong [(k, k)] f k k r ra0 tid cb la (single_inj k k) (or_introl eq_refl) Ha) as Hc.
+        destruct (res_sim_ok_r _ _ _ _ Hc Ea1) as ([rm stm] & Em & Hrm & Hstm). cbn in Hrm, Hstm. subst stm.
+        rewrite Em. cbn [rbind].
+        assert (Hbm : reg_sim (idpairs (stack_keys rest)) rm rb0).
+        { eapply layer_other_l; [|exact Hb|exact Em]. intros j' Hin. apply idpairs_in in Hin as [_ Hin]. contradiction. }
+        pose proof (stack_cong (idpairs (stack_keys rest)) rm rb0 tid cb lb (idpairs_inj _)) as Hsc.
+        rewrite Hkeys in Hsc. specialize (Hsc (fun j Hj => proj2 (idpairs_in j j _) (conj eq_refl Hj)) Hbm).
+        destruct (res_sim_ok_r _ _ _ _ Hsc Eb1) as ([r2 rest2] & E2 & Hr2 & Hrest2). cbn in Hr2, Hrest2. subst rest2.
+        rewrite E2. cbn [rbind]. eexists. split; [reflexivity|]. split; [|split; [|split]]; cbn.
+        * eapply stack_other_l; [|exact Hrm|exact E2].
+          intros j j' Hj [Hin|[]]. injection Hin as <- <-. rewrite Hkeys in Hj. contradiction.
+        * exact Hr2.
+        * reflexivity.
+        * destruct (stack_deliver_shape _ _ _ _ _ _ Eb1) as (A & _). rewrite A. exact Hkeys.
+      + split; [|split; [|split]]; cbn; try reflexivity.
+        * split; [reflexivity|]. constructor.
+        * split; [reflexivity|]. constructor.
+      + cbn in Hl. destruct Hl as [-> _]. exists r, (LCapture f k (spec_storage f ids p) :: restb).
+        split; [exact E|]. cbn. rewrite Hsb, Hkb, Hfb. auto.
+    - (* a pass-through layer on top of the rest *)
+      cbn [stack_fresh stack_keys] in *.
+      destruct (IH Hfresh Hnd) as (rb & restb & Eb & Hsb & Hkb & Hfb).
+      unfold stack_run, sub_run in *.
+      set (RL := fun (l : list layer) (la lb : list layer) =>
+                   l = LPass :: la /\ la = lb /\ stack_keys la = stack_keys rest).
+      destruct (tri_steps (list layer) (list layer) (list layer) stack_deliver stack_deliver stack_deliver
+                  (idpairs (stack_keys rest)) (idpairs (stack_keys rest)) RL)
+        with (sites := p_sites p) (ids := ids) (ops := p_ops p)
+             (x := (reg_init, LPass :: rest)) (a := (reg_init, rest)) (b := (reg_init, rest))
+             (a1 := (rb, restb)) (b1 := (rb, restb))
+        as ([r l] & E & _ & _ & Hl); auto.
+      + intros r ra0 rb0 l la lb tid cb [ra1 la1] [rb1 lb1] (Ha & Hb & Hl & Hab & Hkeys) Ea1 Eb1.
+        cbn in Ha, Hb, Hl, Hab, Hkeys. subst l lb. cbn [stack_deliver].
+        pose proof (stack_cong (idpairs (stack_keys rest)) r ra0 tid cb la (idpairs_inj _)) as Hsc.
+        rewrite Hkeys in Hsc. pose proof (Hsc (fun j Hj => proj2 (idpairs_in j j _) (conj eq_refl Hj)) Ha) as Hsa.
+        destruct (res_sim_ok_r _ _ _ _ Hsa Ea1) as ([r2 rest2] & E2 & Hr2 & Hrest2). cbn in Hr2, Hrest2. subst rest2.
+        pose proof (stack_cong (idpairs (stack_keys rest)) r rb0 tid cb la (idpairs_inj _)) as Hsc'.
+        rewrite Hkeys in Hsc'. pose proof (Hsc' (fun j Hj => proj2 (idpairs_in j j _) (conj eq_refl Hj)) Hb) as Hsb'.
+        destruct (res_sim_ok_r _ _ _ _ Hsb' Eb1) as ([r2' rest2'] & E2' & Hr2' & Hrest2'). cbn in Hr2', Hrest2'.
+        rewrite E2 in E2'. injection E2' as <- <-.
+        rewrite E2. cbn [rbind]. eexists. split; [reflexivity|]. split; [|split; [|split; [|split]]]; cbn; auto.
+        destruct (stack_deliver_shape _ _ _ _ _ _ Ea1) as (A & _). rewrite A. exact Hkeys.
+      + split; [|split; [|split; [|split]]]; cbn; try reflexivity.
+        * split; [reflexivity|]. constructor.
+        * split; [reflexivity|]. constructor.
+      + cbn in Hl. destruct Hl as [-> _]. exists r, (LPass :: restb). split; [exact E|]. cbn. auto.
+  Qed.
+End Stacks.
